@@ -78,16 +78,11 @@ func c11NullKinds(c schemaCase, d smodel.Doc) string {
 				}
 			}
 		case smodel.KUStructs:
-			if obj, ok := v.(map[string]any); ok {
-				dv, _ := obj[t.Discriminator].(string)
-				for _, r := range t.Refs {
-					if def := c.Model.Def(r); def != nil {
-						for _, f := range def.Type.Fields {
-							if f.Name == t.Discriminator && f.Type.Const != nil && strings.Trim(string(*f.Type.Const), "\"") == dv {
-								walk(def.Type, v)
-							}
-						}
-					}
+			// the branch is found structurally (the constants of the branches
+			// need not be strings)
+			if r, ok := c11BranchOf(c.Model, t, v); ok {
+				if def := c.Model.Def(r); def != nil {
+					walk(def.Type, v)
 				}
 			}
 		}
@@ -206,10 +201,10 @@ func c11CheckBatch(run *vlib.Run, cases []schemaCase) (map[int][]vlib.Violation,
 			if nulls != "" {
 				where = "doc-has-null:" + nulls
 			}
-			add(fmt.Sprintf("python-raises:%s:%s:%s%s", f, pyErrClass(pr.Error), where, nestedTag(c)), "from_json/to_json raises %s", pr.Error)
+			add(fmt.Sprintf("python-raises:%s:%s:%s%s%s", f, pyErrClass(pr.Error), where, nestedTag(c), c11UnionRegion(c.Model)), "from_json/to_json raises %s", pr.Error)
 			continue
 		}
-		diffs, cerr := smodel.CompareRoundTrip(c.Model, d.Def, d.JSON, pr.Encoded)
+		diffs, cerr := c11Compare(c.Model, d.Def, d.JSON, pr.Encoded)
 		if cerr != nil {
 			add("python-output-not-json:"+f, "%v (%s)", cerr, pr.Encoded)
 			continue
@@ -225,7 +220,7 @@ func c11CheckBatch(run *vlib.Run, cases []schemaCase) (map[int][]vlib.Violation,
 		}
 		// Go vs Python on the wire
 		if gr.Panic == "" && gr.StdErr == "" && gr.EncodeErr == "" && gr.Encoded != "" {
-			gd, _ := smodel.CompareRoundTrip(c.Model, d.Def, gr.Encoded, pr.Encoded)
+			gd, _ := c11Compare(c.Model, d.Def, gr.Encoded, pr.Encoded)
 			seen := map[string]bool{}
 			for _, df := range gd {
 				sig := fmt.Sprintf("go-python-disagree:%s:%s:%s", f, df.Class, df.FieldKind)
@@ -258,23 +253,26 @@ func TestC11(t *testing.T) {
 	run := vlib.Begin(t, "C11")
 	defer run.Finish(t)
 	run.Describe(
-		"Batches of K schema models (K=8 quick, 16 thorough) as in C01 (dense construct grammar, three input formats), generated for Go (json) and Python (json) in one pipeline run; the Python modules are imported and driven by CPython (from_json -> json.dumps(cls=JSONEncoder)), the Go packages compiled and driven (json.Unmarshal -> json.Marshal), on 3 valid-by-construction documents per struct definition. Oracle: the Python re-encoding is JSON-equal to the document (exact rationals; optional explicit null may be omitted); the Python re-encoding equals the Go re-encoding of the same document whenever both succeeded. Non-trivial document: exercises a union, an enum, an optional present/absent/null property, a map or array of objects, or a nested reference; distinct by (format, schema, document).",
+		"Batches of K schema models (K=12 quick, 16 thorough), generated for Go (json) and Python (json) in one pipeline run; the Python modules are imported and driven by CPython (from_json -> json.dumps(cls=JSONEncoder)), the Go packages compiled and driven (json.Unmarshal -> json.Marshal), on 3 valid-by-construction documents per struct definition. Five models of eight are drawn as in C01 (dense construct grammar, three input formats; unions of structs there always carry a string constant named kind / type as first property of every branch). Three of eight are UNION-FOCUS models (jsonschema / cue, one in seven openapi; no collections nested directly in collections): the same dense model whose union branches are rewritten so that what the branches share is a string constant, an integer constant, a boolean constant (two branches), a float constant, a string in some branches and an integer in another, or no constant at all (a required marker property per branch instead); the discriminating property sits at a drawn position of each branch; one model in three adds a second constant under one name to every branch (integer, boolean or string; the same value everywhere or a value per branch) at a drawn position; branches are synthesised when the model has none; a Holder struct, referred to by the entry point, uses unions over drawn subsets of the branches (or the named union) as a property, as array items and as map values, without any nullable position, and gets 5 documents. OpenAPI union-focus models only get the Holder (OpenAPI 3.0 has no constants but string patterns and names its discriminator). Oracle: the Python re-encoding is JSON-equal to the document (exact rationals; optional explicit null may be omitted); the Python re-encoding equals the Go re-encoding of the same document whenever both succeeded; a Python exception on a valid document is a violation. Both comparisons are type-directed; the branch a union value belongs to is found structurally (constants of any JSON kind, declared and required properties), so values of unions without string discriminator are judged against their own branch with the same exemptions and difference classes as everything else. Signatures of Python exceptions carry how the unions of the model are discriminated when that is not by strings. Non-trivial document: exercises a union, an enum, an optional present/absent/null property, a map or array of objects, or a nested reference; distinct by (format, schema, document).",
 		"documents use canonical number and RFC 3339 spellings and are accepted by the source schema's reference validator (else discarded and counted)",
 		"a Python module that does not import is C02's matter: recorded, not reported here",
 		"an error returned by cog at generation time is an acceptable outcome (counted)",
+		"excluded by construction, both reported as genuine defects with kept replays: (1) integers beyond +-2^53 inside a value of a union cog finds no string discriminator for (such a union is `any` in Go: float64 numbers, the integer comes back rounded while Python keeps it) are clamped to +-2^53 (counted); (2) a string constant with one and the same value in every branch of a union (cog takes the first string constant the branches share as the discriminator whatever its values; every value is then decoded as the last branch) is never generated: the drawn decoy gets a value per branch and same-named string constants of several branches become plain strings (counted)",
 	)
 	if vlib.RunReplay(t, run, c11Check) {
 		return
 	}
-	k := 8
+	k := 12
 	if vlib.Thorough() {
 		k = 16
 	}
 	rapid.Check(t, func(rt *rapid.T) {
 		var cases []schemaCase
+		var focusLabels [][]string
 		for i := 0; i < k; i++ {
-			f := rapid.SampledFrom(smodel.Formats).Draw(rt, "format")
-			cases = append(cases, drawSchemaCase(rt, smodel.DefaultGenConfig(f), 3))
+			c, labels := c11DrawCase(rt, run, 3)
+			cases = append(cases, c)
+			focusLabels = append(focusLabels, labels)
 		}
 		res, err := c11CheckBatch(run, cases)
 		if err != nil {
@@ -283,7 +281,7 @@ func TestC11(t *testing.T) {
 		}
 		for i, c := range cases {
 			src := c.source()
-			run.Label(append([]string{"format:" + string(c.Format)}, c.Model.Features()...)...)
+			run.Label(append(append([]string{"format:" + string(c.Format)}, c.Model.Features()...), focusLabels[i]...)...)
 			for _, d := range c.Docs {
 				key := uint64(0)
 				if c01Nontrivial(d) {
